@@ -2,7 +2,7 @@
    flattened observation; [model_obs] runs the model on the same arguments. *)
 From Coq Require Import ZArith List Bool.
 Import ListNotations.
-From Osmo Require Import Base.Obs Base.DecModel C13.Common C13.Sqrt C13.SigFig C13.BinSearch C13.Exp2.
+From Osmo Require Import Base.Obs Base.DecModel C13.Common C13.Sqrt C13.SigFig C13.BinSearch C13.Exp2 C13.Log2 C13.Pow.
 Open Scope Z_scope.
 
 Record case := mkCase {
@@ -29,6 +29,12 @@ Definition model_obs (c : case) : list Z :=
   | 8, [kind; p1; p2; p3; lo; hi; target; ha; ad; hm; mu; dir; maxit] =>
       flat_res (binary_search_bigdec (search_fn_bigdec kind p1 p2 p3) (iters_of maxit) lo hi target (mk_tol ha ad hm mu dir))
   | 9, [e] => flat_res (exp2 e)
+  | 10, [x] => flat_res (log_base2 x)
+  | 11, [x] => flat_res (ln_bigdec x)
+  | 12, [x] => flat_res (tick_log x)
+  | 13, [x; b] => flat_res (custom_base_log x b)
+  | 14, [b; e] => flat_res (pow b e)
+  | 15, [b; e; pr] => flat_res (pow_approx b e pr)
   | 16, [d; n] => flat_res (bdc_power_integer d n)
   | _, _ => [-999]
   end.
